@@ -59,6 +59,101 @@ def make(mc, cls, prior, **kw):
     return alg
 
 
+# ----------------------------------------------------------------------------- the kernel as the sampler runs it
+
+def as_run_case(mc, rng):
+    """a pair of consecutive moves produced by the sampler's own methods (states exactly as a run holds them, acceptance
+    probabilities exactly as iterate() obtains them): a model jump from a random state, which is taken, followed by a
+    within-model proposal from the state the jump left"""
+    return {'kind': 'as-run', 'prior': rng.choice(['uniform_prior', 'flat_prior']), 'gaussian_jump_params': rng.random() < 0.6,
+            'dc_prior': rng.choice([0.5, rng.uniform(0.05, 0.95)]), 'start_dc': rng.random() < 0.5, 'start': rand_state(rng, False, 0.0),
+            'L0': rng.uniform(-20, 3), 'L1': rng.uniform(-20, 3), 'L2': rng.uniform(-20, 3), 'numpy_seed': rng.randrange(2 ** 31)}
+
+
+def core5(x):
+    return {k: float(np.asarray(x[k]).flatten()[0]) for k in ('gamma', 'delta', 'kappa', 'h', 'sigma')}
+
+
+def used_acceptance(alg, proposal, L):
+    """the acceptance probability iterate() uses for this proposal: recorded inside _acceptance_check, called as iterate calls it"""
+    seen = []
+    orig = alg.acceptance
+
+    def rec(*a, **k):
+        v = orig(*a, **k)
+        seen.append(float(np.asarray(v, dtype=float).flatten()[0]))
+        return v
+    alg.acceptance = rec
+    try:
+        with np.errstate(all='ignore'):
+            alg._acceptance_check(proposal, L, False)
+    finally:
+        alg.acceptance = orig
+    return seen[-1]
+
+
+def as_run_check(mc, case):
+    def fresh(state, L, dc):
+        alg = make(mc, mc.IterativeTransDMetropolisHastingsGaussianTape, case['prior'], dc_prior=case['dc_prior'],
+                   gaussian_jump_params=case['gaussian_jump_params'])
+        alg.xi, alg.ln_likelihood_xi, alg.dc, alg.jump = dict(state), L, dc, False
+        return alg
+    np.random.seed(case['numpy_seed'])
+    pdc = case['dc_prior']
+    s0 = dict(case['start'])
+    if case['start_dc']:
+        s0['gamma'], s0['delta'] = 0.0, 0.0
+    alg = fresh(s0, case['L0'], case['start_dc'])
+    # 1. a model jump, proposed by the sampler, judged as iterate() judges it, and taken
+    alg.dimension_jump_prob = 2.0
+    prop = alg._new_sample_single()
+    if not alg.jump:
+        return 'a proposal drawn with jump probability 1 is not a model jump'
+    a_fwd = used_acceptance(alg, prop, case['L1'])
+    # the reverse jump from the state a run would then hold
+    alg.jump = False
+    alg._add_new(prop, case['L1'], False)
+    s1, dc1 = alg.xi, alg.dc
+    if dc1 == case['start_dc']:
+        return 'the model flag did not change after an accepted model jump'
+    rev = fresh(dict(s1), case['L1'], dc1)
+    rev.dimension_jump_prob = 2.0
+    if dc1:
+        back = rev._new_sample_single()          # DC -> MT draws its own balancing parameters: use the ones of the start instead
+        back = dict(back, gamma=s0['gamma'], delta=s0['delta'])
+        rev.xi_1 = back
+    else:
+        back = rev._new_sample_single()
+    a_bwd = used_acceptance(rev, back, case['L0'])
+    mt_state, dc_state = (core5(s1), core5(s0)) if case['start_dc'] else (core5(s0), core5(s1))
+    dc_red = {k: v for k, v in dc_state.items() if k not in ('gamma', 'delta')}
+    a_up, a_down = (a_fwd, a_bwd) if case['start_dc'] else (a_bwd, a_fwd)
+    L_dc, L_mt = (case['L0'], case['L1']) if case['start_dc'] else (case['L1'], case['L0'])
+    qb = float(alg.jump_params(mt_state))
+    lhs = pdc * float(alg.prior(dc_red)) * math.exp(L_dc) * qb * a_up
+    rhs = (1 - pdc) * float(alg.prior(mt_state)) * math.exp(L_mt) * a_down
+    if float(alg.prior(mt_state)) > 0 and not close(lhs, rhs, 1e-9) and abs(lhs - rhs) > 1e-300:
+        return ('model jump judged as in a run (configured double-couple prior %.4f): dc_prior prior_dc e^L_dc q_b a_up = %r but '
+                '(1 - dc_prior) prior_mt e^L_mt a_down = %r (a_up %r, a_down %r)' % (pdc, lhs, rhs, a_up, a_down))
+    # 2. a within-model proposal from the state the jump left, and its reverse
+    alg.dimension_jump_prob = -1.0
+    y = alg._new_sample_single()
+    if alg.jump:
+        return 'a proposal drawn with jump probability 0 is a model jump'
+    a12 = used_acceptance(alg, y, case['L2'])
+    rev = fresh(core5(y), case['L2'], dc1)
+    rev.alpha = dict(alg.alpha)
+    a21 = used_acceptance(rev, core5(s1), case['L1'])
+    ys, ss = core5(y), core5(s1)
+    q12, q21 = q_true(ys, ss, alg.alpha, dc1), q_true(ss, ys, alg.alpha, dc1)
+    lhs = float(alg.prior(ss)) * math.exp(case['L1']) * q12 * a12
+    rhs = float(alg.prior(ys)) * math.exp(case['L2']) * q21 * a21
+    if not close(lhs, rhs, 1e-9) and abs(lhs - rhs) > 1e-300:
+        return ('within-model move from the state an accepted model jump left (%s): prior e^L q a = %r forwards, %r backwards '
+                '(a %r forwards, %r backwards)' % (sorted(s1.keys()), lhs, rhs, a12, a21))
+    return None
+
+
 def run(R):
     mc = _impl()
     proved = R.prove()
@@ -191,8 +286,12 @@ def run(R):
             bad = bad or dict(case, check='reversible-jump balance with the balancing density the code uses', lhs=lhs, rhs=rhs)
         if defs:
             funs = {'user:qb': lambda a: float(alg.jump_params(a[0])), 'user:prior': lambda a: float(alg.prior(a[0])), 'user:mh': lambda a: 0.0}
-            mu = defs['jump_up_acc'].evaluate([x, Lx, s_red, Ls, pdc], funs)
-            md = defs['jump_down_acc'].evaluate([s_red, Ls, x, Lx, pdc], funs)
+            try:
+                mu = defs['jump_up_acc'].evaluate([x, Lx, s_red, Ls, pdc], funs)
+                md = defs['jump_down_acc'].evaluate([s_red, Ls, x, Lx, pdc], funs)
+            except Exception as ex:      # the regenerated definition no longer has the shape the tie expects
+                mu = md = float('nan')
+                R.signal('correspondence', {'def': 'jump_up_acc/jump_down_acc', 'why': 'regenerated model cannot be evaluated: %r' % ex})
             if not close(up, mu, 1e-10) or not close(down, md, 1e-10):
                 R.signal('correspondence', {'def': 'jump_up_acc/jump_down_acc', 'case': case, 'model': [mu, md]})
             if gauss:
@@ -212,6 +311,16 @@ def run(R):
                     'detailed balance holds for a target whose DC:MT prior odds are scaled by that constant')
             if not R.known_finding('jump_density_normalisation', what % (alg.alpha['proposal_normalisation'], 0.99115)):
                 bad = bad or dict(case, check='balancing density equals the density of the balancing draw', expected_density=float(true_q))
+    # the kernel as a run composes it (states and acceptance calls produced by the sampler's own methods)
+    for i in range(R.n(200, 5000)):
+        case = as_run_case(mc, R.rng)
+        R.count(('as-run', i), nontrivial=case['dc_prior'] != 0.5)
+        try:
+            why = as_run_check(mc, case)
+        except Exception as ex:
+            why = 'raised %s: %s' % (type(ex).__name__, ex)
+        if why:
+            bad = bad or dict(case, check=why)
     if bad:
         R.violation('detailed balance: %s fails' % bad['check'], bad)
     R.cov['rule'] = ('random pairs of in-domain states (20% of coordinates on a bound), widths in (0, max], both priors, DC and full tensor, '
@@ -221,5 +330,10 @@ def run(R):
 
 
 def replay(R, body):
-    print(body['replay'])
+    rp = body['replay']
+    if rp.get('kind') == 'as-run':
+        why = as_run_check(_impl(), rp)
+        print('oracle:', why or 'holds')
+        return 1 if why else 0
+    print(rp)
     return 0
